@@ -19,6 +19,7 @@ use serde_json::json;
 use std::io::Write;
 use surf_n_term::{
     Cell, CellWrite, Color as _, Face, FaceAttrs, FaceModify, RGBA, UnderlineStyle,
+    common::IOQueue,
     decoder::{Decoder, TTYCommandDecoder, verif_c06},
     encoder::{ColorDepth, Encoder, TTYEncoder},
     render::CellKind,
@@ -34,16 +35,146 @@ const UNDERS: [UnderlineStyle; 6] = [
     UnderlineStyle::Dotted,
     UnderlineStyle::Dashed,
 ];
-fn under_num(u: UnderlineStyle) -> usize {
-    UNDERS.iter().position(|x| *x == u).unwrap()
+/// by an exhaustive `match`, not through the enum's `PartialEq`
+fn under_num(u: UnderlineStyle) -> u8 {
+    match u {
+        UnderlineStyle::None => 0,
+        UnderlineStyle::Straight => 1,
+        UnderlineStyle::Double => 2,
+        UnderlineStyle::Curly => 3,
+        UnderlineStyle::Dotted => 4,
+        UnderlineStyle::Dashed => 5,
+    }
 }
-fn rgba_tok(c: Option<RGBA>) -> String {
+
+// ---- the harness's OWN records -------------------------------------------------------------------------------
+// Everything the harness expects, describes or compares is one of these records, built from the raw generated
+// pieces. A crate value is turned into a record by a RAW read only: `Face.fg` / `.bg` / `.attrs` and the fields of
+// `FaceModify` are public; the private attribute word `FaceAttrs.bits` is taken from the derived `Hash` (a hasher
+// that keeps the bytes it is given); `RGBA` is the third-party `rasterize` type (outside /repo), read with
+// `to_rgba()`. No accessor, operator, conversion or comparison impl of src/face.rs describes an input or an
+// expectation: `FaceAttrs::contains / underline / insert / remove`, `From<UnderlineStyle>`, `Face::with_*`,
+// `Face::default`, `FaceModify::default`, `PartialEq` of `Face` / `FaceModify` / `UnderlineStyle` are not used for
+// that (building a crate value from a record necessarily goes through the crate's constructors; every value built
+// is read back raw and a difference is reported).
+
+struct Grab(Vec<u8>);
+impl std::hash::Hasher for Grab {
+    fn write(&mut self, bytes: &[u8]) {
+        self.0.extend_from_slice(bytes);
+    }
+    fn finish(&self) -> u64 {
+        0
+    }
+}
+/// the private `bits: u16` of a `FaceAttrs`, as the derived `Hash` feeds it (`write_u16`)
+fn attr_bits(a: FaceAttrs) -> u16 {
+    use std::hash::Hash;
+    let mut g = Grab(Vec::new());
+    a.hash(&mut g);
+    if g.0.len() == 2 { u16::from_ne_bytes([g.0[0], g.0[1]]) } else { 0xffff }
+}
+
+type Rgb = Option<[u8; 4]>;
+fn raw_color(c: Option<RGBA>) -> Rgb {
+    c.map(|c| c.to_rgba())
+}
+fn crate_color(c: Rgb) -> Option<RGBA> {
+    c.map(|[r, g, b, a]| RGBA::new(r, g, b, a))
+}
+
+/// a face: colours as bytes, underline style index 0..5 (6, 7 = a non-canonical word), flags, and whatever is set
+/// above the eight defined bits of the attribute word
+#[derive(Clone, Copy, PartialEq, Eq, Debug, Default)]
+struct RFace {
+    fg: Rgb,
+    bg: Rgb,
+    under: u8,
+    bold: bool,
+    italic: bool,
+    blink: bool,
+    reverse: bool,
+    strike: bool,
+    junk: u16,
+}
+fn raw_face(f: &Face) -> RFace {
+    let bits = attr_bits(f.attrs);
+    RFace {
+        fg: raw_color(f.fg),
+        bg: raw_color(f.bg),
+        under: (bits & 7) as u8,
+        bold: bits & 8 != 0,
+        italic: bits & 16 != 0,
+        blink: bits & 32 != 0,
+        reverse: bits & 64 != 0,
+        strike: bits & 128 != 0,
+        junk: bits >> 8,
+    }
+}
+/// a crate `Face` for a record, through the crate's constructors; `Err(what they built, read raw)` when that is
+/// not the record (a defect of `From<UnderlineStyle>` / `insert` / `Face::new`: reported by the caller)
+fn crate_face(r: &RFace) -> Result<Face, RFace> {
+    let mut attrs: FaceAttrs = UNDERS[r.under as usize % 6].into();
+    for (on, flag) in [
+        (r.bold, FaceAttrs::BOLD),
+        (r.italic, FaceAttrs::ITALIC),
+        (r.blink, FaceAttrs::BLINK),
+        (r.reverse, FaceAttrs::REVERSE),
+        (r.strike, FaceAttrs::STRIKE),
+    ] {
+        if on {
+            attrs = attrs.insert(flag);
+        }
+    }
+    let f = Face::new(crate_color(r.fg), crate_color(r.bg), attrs);
+    let back = raw_face(&f);
+    if back == *r { Ok(f) } else { Err(back) }
+}
+
+/// a face modification, field by field
+#[derive(Clone, Copy, PartialEq, Eq, Debug, Default)]
+struct RMod {
+    reset: bool,
+    fg: Rgb,
+    bg: Rgb,
+    underline: Option<u8>,
+    underline_color: Rgb,
+    bold: Option<bool>,
+    italic: Option<bool>,
+    blink: Option<bool>,
+    strike: Option<bool>,
+}
+fn raw_mod(m: &FaceModify) -> RMod {
+    RMod {
+        reset: m.reset,
+        fg: raw_color(m.fg),
+        bg: raw_color(m.bg),
+        underline: m.underline.map(under_num),
+        underline_color: raw_color(m.underline_color),
+        bold: m.bold,
+        italic: m.italic,
+        blink: m.blink,
+        strike: m.strike,
+    }
+}
+fn crate_mod(m: &RMod) -> FaceModify {
+    FaceModify {
+        reset: m.reset,
+        fg: crate_color(m.fg),
+        bg: crate_color(m.bg),
+        underline: m.underline.map(|u| UNDERS[u as usize]),
+        underline_color: crate_color(m.underline_color),
+        bold: m.bold,
+        italic: m.italic,
+        blink: m.blink,
+        strike: m.strike,
+    }
+}
+
+fn rgb_tok(c: Rgb) -> String {
     match c {
         None => "-".into(),
-        Some(c) => {
-            let [r, g, b, a] = c.to_rgba();
-            format!("{r},{g},{b},{a}")
-        }
+        Some([r, g, b, a]) => format!("{r},{g},{b},{a}"),
     }
 }
 fn tri(v: Option<bool>) -> &'static str {
@@ -56,46 +187,51 @@ fn tri(v: Option<bool>) -> &'static str {
 fn bit(b: bool) -> &'static str {
     if b { "1" } else { "0" }
 }
-fn fmod_tok(m: &FaceModify) -> String {
+fn rmod_tok(m: &RMod) -> String {
     format!(
         "{} {} {} {} {} {} {} {} {}",
         bit(m.reset),
-        rgba_tok(m.fg),
-        rgba_tok(m.bg),
-        m.underline.map(|u| under_num(u).to_string()).unwrap_or("-".into()),
-        rgba_tok(m.underline_color),
+        rgb_tok(m.fg),
+        rgb_tok(m.bg),
+        m.underline.map(|u| u.to_string()).unwrap_or("-".into()),
+        rgb_tok(m.underline_color),
         tri(m.bold),
         tri(m.italic),
         tri(m.blink),
         tri(m.strike)
     )
 }
-fn face_tok(f: &Face) -> String {
-    let a = f.attrs;
+fn fmod_tok(m: &FaceModify) -> String {
+    rmod_tok(&raw_mod(m))
+}
+/// the token of the line protocol; a non-canonical attribute word (style 6 / 7, bits above the flags) shows as a
+/// style / suffix the model never prints
+fn rface_tok(f: &RFace) -> String {
     format!(
-        "{} {} {} {} {} {} {} {}",
-        rgba_tok(f.fg),
-        rgba_tok(f.bg),
-        under_num(a.underline()),
-        bit(a.contains(FaceAttrs::BOLD)),
-        bit(a.contains(FaceAttrs::ITALIC)),
-        bit(a.contains(FaceAttrs::BLINK)),
-        bit(a.contains(FaceAttrs::REVERSE)),
-        bit(a.contains(FaceAttrs::STRIKE))
+        "{} {} {} {} {} {} {} {}{}",
+        rgb_tok(f.fg),
+        rgb_tok(f.bg),
+        f.under,
+        bit(f.bold),
+        bit(f.italic),
+        bit(f.blink),
+        bit(f.reverse),
+        bit(f.strike),
+        if f.junk != 0 { format!(" junk={}", f.junk) } else { String::new() }
     )
 }
 
 /// half of the colours come from a small pool, so that equal colours in different roles of one record
 /// (fg = underline colour, fg = bg) and in consecutive records are routine, not a 2^-24 coincidence
 const POOL: [[u8; 3]; 6] = [[0, 0, 0], [255, 255, 255], [255, 0, 0], [0, 95, 215], [128, 128, 128], [18, 52, 86]];
-fn rnd_color(rng: &mut Rng) -> RGBA {
+fn rnd_color(rng: &mut Rng) -> [u8; 4] {
     if rng.chance(1, 2) {
         let [r, g, b] = *rng.pick(&POOL);
-        return RGBA::new(r, g, b, 255);
+        return [r, g, b, 255];
     }
-    RGBA::new(rng.below(256) as u8, rng.below(256) as u8, rng.below(256) as u8, 255)
+    [rng.below(256) as u8, rng.below(256) as u8, rng.below(256) as u8, 255]
 }
-fn opt_color(rng: &mut Rng) -> Option<RGBA> {
+fn opt_color(rng: &mut Rng) -> Rgb {
     if rng.chance(1, 3) { None } else { Some(rnd_color(rng)) }
 }
 fn rnd_tri(rng: &mut Rng) -> Option<bool> {
@@ -105,21 +241,35 @@ fn rnd_tri(rng: &mut Rng) -> Option<bool> {
         _ => Some(false),
     }
 }
-fn rnd_face(rng: &mut Rng) -> Face {
-    let mut attrs: FaceAttrs = (*rng.pick(&UNDERS)).into();
-    for f in [FaceAttrs::BOLD, FaceAttrs::ITALIC, FaceAttrs::BLINK, FaceAttrs::REVERSE, FaceAttrs::STRIKE] {
-        if rng.chance(1, 3) {
-            attrs = attrs.insert(f);
+/// a face as a record of raw pieces
+fn rnd_rface(rng: &mut Rng) -> RFace {
+    let under = rng.below(6) as u8;
+    let mut flag = || rng.chance(1, 3);
+    let (bold, italic, blink, reverse, strike) = (flag(), flag(), flag(), flag(), flag());
+    RFace { fg: opt_color(rng), bg: opt_color(rng), under, bold, italic, blink, reverse, strike, junk: 0 }
+}
+/// the crate value for a record; a constructor defect is a reported failure (the attribute algebra of src/face.rs
+/// is part of the mechanism of C06) and the case is skipped
+fn build(o: &mut Out, case: &str, r: &RFace) -> Option<Face> {
+    match crate_face(r) {
+        Ok(f) => Some(f),
+        Err(back) => {
+            o.fail(
+                "C06: FaceAttrs / Face constructors (From<UnderlineStyle>, insert, Face::new) do not build the face asked for",
+                json!({"case": case, "face": rface_tok(r), "has_inexpressible_param": false}),
+                json!(rface_tok(r)),
+                json!(rface_tok(&back)),
+            );
+            None
         }
     }
-    Face::new(opt_color(rng), opt_color(rng), attrs)
 }
-fn rnd_modify(rng: &mut Rng) -> FaceModify {
-    FaceModify {
+fn rnd_rmod(rng: &mut Rng) -> RMod {
+    RMod {
         reset: rng.chance(1, 3),
         fg: opt_color(rng),
         bg: opt_color(rng),
-        underline: if rng.chance(1, 3) { None } else { Some(*rng.pick(&UNDERS)) },
+        underline: if rng.chance(1, 3) { None } else { Some(rng.below(6) as u8) },
         underline_color: if rng.chance(1, 2) { None } else { Some(rnd_color(rng)) },
         bold: rnd_tri(rng),
         italic: rnd_tri(rng),
@@ -247,25 +397,20 @@ const NAMED: [(u8, u8, u8); 16] = [
 ];
 
 /// independent reference: the xterm 256-colour palette (literal tables and formulas)
-fn xterm_palette(i: u128) -> Option<RGBA> {
+fn xterm_palette(i: u128) -> Rgb {
     const CUBE: [u8; 6] = [0, 95, 135, 175, 215, 255];
     if i < 16 {
         let (r, g, b) = NAMED[i as usize];
-        Some(RGBA::new(r, g, b, 255))
+        Some([r, g, b, 255])
     } else if i < 232 {
         let i = (i - 16) as usize;
-        Some(RGBA::new(CUBE[i / 36], CUBE[(i / 6) % 6], CUBE[i % 6], 255))
+        Some([CUBE[i / 36], CUBE[(i / 6) % 6], CUBE[i % 6], 255])
     } else if i < 256 {
         let v = (8 + 10 * (i - 232)) as u8;
-        Some(RGBA::new(v, v, v, 255))
+        Some([v, v, v, 255])
     } else {
         None
     }
-}
-
-fn set_under(attrs: FaceAttrs, style: usize) -> FaceAttrs {
-    let cleared = attrs.remove(FaceAttrs::UNDERLINE);
-    if style == 0 { cleared } else { cleared.insert(UNDERS[style].into()) }
 }
 
 type Param = Vec<Option<u128>>;
@@ -289,20 +434,20 @@ fn parse_params(data: &str) -> Option<Vec<Param>> {
         .collect()
 }
 
-/// Reference SGR machine (xterm ctlseqs, "Character Attributes (SGR)") on what a `Face` can hold (no underline
-/// colour). `ignore_inexpressible`: 7 / 27 / 39 / 49 are no-ops.
-fn ref_apply(face: &mut Face, data: &str, ignore_inexpressible: bool) {
+/// Reference SGR machine (xterm ctlseqs, "Character Attributes (SGR)") on the harness's own face record (what a
+/// `Face` can hold: no underline colour). `ignore_inexpressible`: 7 / 27 / 39 / 49 are no-ops.
+fn ref_apply(face: &mut RFace, data: &str, ignore_inexpressible: bool) {
     let Some(groups) = parse_params(data) else { return };
     let one = |g: &Param| if g.len() == 1 { g[0] } else { None };
-    let rgb = |r: u128, g: u128, b: u128| {
-        if r < 256 && g < 256 && b < 256 { Some(RGBA::new(r as u8, g as u8, b as u8, 255)) } else { None }
+    let rgb = |r: u128, g: u128, b: u128| -> Rgb {
+        if r < 256 && g < 256 && b < 256 { Some([r as u8, g as u8, b as u8, 255]) } else { None }
     };
     let mut i = 0;
     while i < groups.len() {
         let g = &groups[i];
         let mut adv = 1;
-        // (role, colour) of a colour parameter: role 0 fg, 1 bg, 2 underline colour
-        let mut color: Option<(u128, Option<RGBA>)> = None;
+        // (role, colour) of a colour parameter: 38 fg, 48 bg, 58 underline colour
+        let mut color: Option<(u128, Rgb)> = None;
         if let (1, Some(role @ (38 | 48 | 58))) = (g.len(), g[0]) {
             // semicolon forms: the colour consumes the following parameters
             if i + 4 < groups.len() && groups[i + 1] == vec![Some(2)] {
@@ -319,23 +464,23 @@ fn ref_apply(face: &mut Face, data: &str, ignore_inexpressible: bool) {
             }
         } else {
             match g.as_slice() {
-                [None] | [Some(0)] => *face = Face::default(),
-                [Some(1)] => face.attrs = face.attrs.insert(FaceAttrs::BOLD),
-                [Some(3)] => face.attrs = face.attrs.insert(FaceAttrs::ITALIC),
-                [Some(5)] => face.attrs = face.attrs.insert(FaceAttrs::BLINK),
-                [Some(9)] => face.attrs = face.attrs.insert(FaceAttrs::STRIKE),
-                [Some(22)] => face.attrs = face.attrs.remove(FaceAttrs::BOLD),
-                [Some(23)] => face.attrs = face.attrs.remove(FaceAttrs::ITALIC),
-                [Some(25)] => face.attrs = face.attrs.remove(FaceAttrs::BLINK),
-                [Some(29)] => face.attrs = face.attrs.remove(FaceAttrs::STRIKE),
-                [Some(7)] if !ignore_inexpressible => face.attrs = face.attrs.insert(FaceAttrs::REVERSE),
-                [Some(27)] if !ignore_inexpressible => face.attrs = face.attrs.remove(FaceAttrs::REVERSE),
+                [None] | [Some(0)] => *face = RFace::default(),
+                [Some(1)] => face.bold = true,
+                [Some(3)] => face.italic = true,
+                [Some(5)] => face.blink = true,
+                [Some(9)] => face.strike = true,
+                [Some(22)] => face.bold = false,
+                [Some(23)] => face.italic = false,
+                [Some(25)] => face.blink = false,
+                [Some(29)] => face.strike = false,
+                [Some(7)] if !ignore_inexpressible => face.reverse = true,
+                [Some(27)] if !ignore_inexpressible => face.reverse = false,
                 [Some(39)] if !ignore_inexpressible => face.fg = None,
                 [Some(49)] if !ignore_inexpressible => face.bg = None,
-                [Some(4)] => face.attrs = set_under(face.attrs, 1),
-                [Some(4), Some(k)] if *k <= 5 => face.attrs = set_under(face.attrs, *k as usize),
-                [Some(21)] => face.attrs = set_under(face.attrs, 2),
-                [Some(24)] => face.attrs = set_under(face.attrs, 0),
+                [Some(4)] => face.under = 1,
+                [Some(4), Some(k)] if *k <= 5 => face.under = *k as u8,
+                [Some(21)] => face.under = 2,
+                [Some(24)] => face.under = 0,
                 [Some(v @ 30..=37)] => face.fg = xterm_palette(*v - 30),
                 [Some(v @ 90..=97)] => face.fg = xterm_palette(*v - 90 + 8),
                 [Some(v @ 40..=47)] => face.bg = xterm_palette(*v - 40),
@@ -356,14 +501,35 @@ fn ref_apply(face: &mut Face, data: &str, ignore_inexpressible: bool) {
     }
 }
 
+/// what a face modification does to a face (the meaning of the record, written on the harness's own records)
+fn apply_r(m: &RMod, mut f: RFace) -> RFace {
+    if m.reset {
+        f = RFace::default();
+    }
+    if m.fg.is_some() {
+        f.fg = m.fg;
+    }
+    if m.bg.is_some() {
+        f.bg = m.bg;
+    }
+    if let Some(u) = m.underline {
+        f.under = u;
+    }
+    f.bold = m.bold.unwrap_or(f.bold);
+    f.italic = m.italic.unwrap_or(f.italic);
+    f.blink = m.blink.unwrap_or(f.blink);
+    f.strike = m.strike.unwrap_or(f.strike);
+    f
+}
+
 /// sequential composition of face modifications as ONE record: `apply(compose(ms)) = apply(m_k) ∘ … ∘ apply(m_1)`
-fn compose(ms: &[FaceModify]) -> FaceModify {
-    let mut acc = FaceModify::default();
+fn compose(ms: &[RMod]) -> RMod {
+    let mut acc = RMod::default();
     for m in ms {
         if m.reset {
             acc = *m;
         } else {
-            acc = FaceModify {
+            acc = RMod {
                 reset: acc.reset,
                 fg: m.fg.or(acc.fg),
                 bg: m.bg.or(acc.bg),
@@ -380,12 +546,12 @@ fn compose(ms: &[FaceModify]) -> FaceModify {
 }
 
 /// normal form of a record as a face CHANGE: after a reset "leave unchanged" and "turn off" coincide
-fn norm(m: FaceModify) -> FaceModify {
+fn norm(m: RMod) -> RMod {
     if !m.reset {
         return m;
     }
-    FaceModify {
-        underline: Some(m.underline.unwrap_or(UnderlineStyle::None)),
+    RMod {
+        underline: Some(m.underline.unwrap_or(0)),
         bold: Some(m.bold.unwrap_or(false)),
         italic: Some(m.italic.unwrap_or(false)),
         blink: Some(m.blink.unwrap_or(false)),
@@ -396,18 +562,17 @@ fn norm(m: FaceModify) -> FaceModify {
 
 /// the face change a written `Face` command stands for, as far as a face-modification record can say it
 /// (everything but REVERSE)
-fn face_change(f: &Face) -> FaceModify {
-    let a = f.attrs;
-    FaceModify {
+fn face_change(f: &RFace) -> RMod {
+    RMod {
         reset: true,
         fg: f.fg,
         bg: f.bg,
-        underline: Some(a.underline()),
+        underline: Some(f.under),
         underline_color: None,
-        bold: Some(a.contains(FaceAttrs::BOLD)),
-        italic: Some(a.contains(FaceAttrs::ITALIC)),
-        blink: Some(a.contains(FaceAttrs::BLINK)),
-        strike: Some(a.contains(FaceAttrs::STRIKE)),
+        bold: Some(f.bold),
+        italic: Some(f.italic),
+        blink: Some(f.blink),
+        strike: Some(f.strike),
     }
 }
 
@@ -434,7 +599,8 @@ fn rnd_char(rng: &mut Rng) -> char {
 struct Recorder {
     face: Face,
     wraps: bool,
-    cells: Vec<(char, Face)>,
+    /// character and face of every cell put, the face read RAW (`raw_face`)
+    cells: Vec<(char, RFace)>,
     /// `put_cell` calls with an index in [refuse.0, refuse.1) are refused (`false`, nothing stored): a sink
     /// that has no room for some cells; the cell writer must go on decoding the rest of the write
     refuse: (usize, usize),
@@ -460,26 +626,42 @@ impl CellWrite for Recorder {
             return false;
         }
         if let CellKind::Char(c) = cell.kind() {
-            self.cells.push((*c, cell.face()));
+            self.cells.push((*c, raw_face(&cell.face())));
         }
         true
     }
 }
 
-fn decode_all(bytes: &[u8], cuts: &[usize]) -> Result<Vec<TerminalCommand>, ()> {
+/// the bytes cut at `cuts` fed to one `TTYCommandDecoder`, read by read; `via_queue`: every read is written to
+/// the crate's own chunked reader `IOQueue` and the decoder reads from that (another `BufRead` than a cursor)
+fn decode_all(bytes: &[u8], cuts: &[usize], via_queue: bool) -> Result<Vec<TerminalCommand>, ()> {
     guarded(|| {
         let mut dec = TTYCommandDecoder::new();
         let mut out = Vec::new();
         let mut start = 0;
         let mut points: Vec<usize> = cuts.iter().cloned().filter(|c| *c <= bytes.len()).collect();
         points.push(bytes.len());
+        let mut queue = IOQueue::new();
         for end in points {
             if end < start {
                 continue;
             }
-            let mut cur = std::io::Cursor::new(&bytes[start..end]);
-            while let Some(cmd) = dec.decode(&mut cur).map_err(|_| ()).ok().flatten() {
-                out.push(cmd);
+            if via_queue {
+                queue.write_all(&bytes[start..end]).unwrap();
+                queue.flush().unwrap();
+                for _ in 0..(end - start + 4) {
+                    while let Some(cmd) = dec.decode(&mut queue).map_err(|_| ()).ok().flatten() {
+                        out.push(cmd);
+                    }
+                    if queue.is_empty() {
+                        break;
+                    }
+                }
+            } else {
+                let mut cur = std::io::Cursor::new(&bytes[start..end]);
+                while let Some(cmd) = dec.decode(&mut cur).map_err(|_| ()).ok().flatten() {
+                    out.push(cmd);
+                }
             }
             start = end;
         }
@@ -585,10 +767,12 @@ fn main() {
         } else {
             (rnd_garbage(&mut rng), Kind::Malformed)
         };
-        let face = rnd_face(&mut rng);
+        let rf = rnd_rface(&mut rng);
+        let ftok = rface_tok(&rf);
+        let Some(face) = build(o, &case, &rf) else { continue };
         let hx = hex(data.as_bytes());
         let m = guarded(|| verif_c06::sgr_face(data.as_bytes()));
-        o.case(&format!("sgr {data} {}", face_tok(&face)), !garbage && data.len() > 1);
+        o.case(&format!("sgr {data} {ftok}"), !garbage && data.len() > 1);
         o.hist(match (garbage, kind) {
             (true, _) => "sgr:garbage",
             (_, Kind::Plain) => "sgr:wellformed",
@@ -602,107 +786,126 @@ fn main() {
             }
             continue;
         };
-        o.corr(&format!("c06 sgrface {hx}"), &fmod_tok(&m));
-        let applied = m.apply(face);
-        o.corr(&format!("c06 apply {hx} {}", face_tok(&face)), &face_tok(&applied));
+        let rm = raw_mod(&m);
+        o.corr(&format!("c06 sgrface {hx}"), &rmod_tok(&rm));
+        let applied = raw_face(&m.apply(face));
+        let atok = rface_tok(&applied);
+        o.corr(&format!("c06 apply {hx} {ftok}"), &atok);
+        // `FaceModify::apply` on its own: the record, read field by field, applied by the harness
+        let by_record = apply_r(&rm, rf);
+        if applied != by_record {
+            o.fail(
+                "C06: FaceModify::apply does not change the face as the record says",
+                json!({"case": case, "modify": rmod_tok(&rm), "face": ftok, "has_inexpressible_param": false}),
+                json!(rface_tok(&by_record)),
+                json!(atok),
+            );
+        }
         match kind {
             Kind::Malformed => {
                 // outside the domain: behaviour recorded (samples), nothing judged
                 if !garbage && malformed_samples < 4 && i % 37 == 0 {
                     malformed_samples += 1;
-                    o.sample(json!({"malformed_sgr": data, "face": face_tok(&face), "applied": face_tok(&applied), "note": "outside the domain; behaviour recorded"}));
+                    o.sample(json!({"malformed_sgr": data, "face": ftok, "applied": atok, "note": "outside the domain; behaviour recorded"}));
                 }
             }
             Kind::Plain | Kind::Inexpressible => {
                 // (b) the reference with 7 / 27 / 39 / 49 ignored: a mismatch is genuine and is never masked
-                let mut want_ign = face;
+                let mut want_ign = rf;
                 ref_apply(&mut want_ign, &data, true);
                 if applied != want_ign {
                     o.fail(
                         "C06: face after an SGR sequence differs from SGR semantics",
-                        json!({"case": case, "data": data, "face": face_tok(&face), "has_inexpressible_param": false, "reference": "inexpressible parameters ignored"}),
-                        json!(face_tok(&want_ign)),
-                        json!(face_tok(&applied)),
+                        json!({"case": case, "data": data, "face": ftok, "has_inexpressible_param": false, "reference": "inexpressible parameters ignored"}),
+                        json!(rface_tok(&want_ign)),
+                        json!(atok),
                     );
                 }
                 // (a) the full reference: differs only through an inexpressible parameter (known finding)
-                let mut want_full = face;
+                let mut want_full = rf;
                 ref_apply(&mut want_full, &data, false);
                 if applied != want_full {
-                    let what = if kind == Kind::Inexpressible && applied == want_ign {
+                    let known = kind == Kind::Inexpressible && applied == want_ign;
+                    let what = if known {
                         "C06-inexpressible: SGR parameter the face-modification record cannot express is ignored"
                     } else {
                         "C06: face after an SGR sequence differs from SGR semantics"
                     };
                     o.fail(
                         what,
-                        json!({"case": case, "data": data, "face": face_tok(&face), "has_inexpressible_param": kind == Kind::Inexpressible && applied == want_ign}),
-                        json!(face_tok(&want_full)),
-                        json!(face_tok(&applied)),
+                        json!({"case": case, "data": data, "face": ftok, "has_inexpressible_param": known}),
+                        json!(rface_tok(&want_full)),
+                        json!(atok),
                     );
                 }
                 // the Lean specification: `ref` (C06_apply_sgr) / `refx` (C06_apply_sgr_x)
                 if kind == Kind::Plain {
-                    o.oracle(&format!("c06 ref {hx} {}", face_tok(&face)), &face_tok(&applied));
+                    o.oracle(&format!("c06 ref {hx} {ftok}"), &atok);
                 }
-                o.oracle(&format!("c06 refx {hx} {}", face_tok(&face)), &face_tok(&applied));
+                o.oracle(&format!("c06 refx {hx} {ftok}"), &atok);
                 if i % 997 == 0 {
-                    o.sample(json!({"sgr": data, "face": face_tok(&face), "applied": face_tok(&applied)}));
+                    o.sample(json!({"sgr": data, "face": ftok, "applied": atok}));
                 }
             }
         }
     }
 
-    // (e) encoder → decoder round trips, judged by the COMPOSED effect of what is read back
-    let modify_of = |cmds: &[TerminalCommand]| -> Option<FaceModify> {
+    // (e) encoder → decoder round trips, judged by the COMPOSED effect of what is read back (on the harness's
+    // own records: every decoded `FaceModify` is read field by field)
+    let modify_of = |cmds: &[TerminalCommand]| -> Option<RMod> {
         let mut ms = Vec::new();
         for c in cmds {
             match c {
-                TerminalCommand::FaceModify(m) => ms.push(*m),
+                TerminalCommand::FaceModify(m) => ms.push(raw_mod(m)),
                 _ => return None,
             }
         }
         Some(compose(&ms))
     };
+    let plain_face = Face::new(None, None, FaceAttrs::EMPTY);
     for i in 0..(4_000 * scale) {
         let case = format!("rtm#{i}");
         let o: &mut Out = if target.as_ref().map_or(true, |t| *t == case) { &mut out } else { &mut sink };
-        let m = rnd_modify(&mut rng);
+        let rm = rnd_rmod(&mut rng);
+        let m = crate_mod(&rm);
+        let mtok = rmod_tok(&rm);
         o.hist("roundtrip:modify");
-        o.case(&format!("rt {}", fmod_tok(&m)), true);
+        o.case(&format!("rt {mtok}"), true);
         let mut bytes = Vec::new();
         let mut enc = TTYEncoder::new(true_caps.clone());
         // every fourth record goes through an encoder whose previous face change hit a sink that failed part
         // way (a full fixed-size buffer): what was refused must not leak into this record
         let mut refused = String::from("-");
         if i % 4 == 3 {
-            let prev = rnd_modify(&mut rng);
+            let prev = rnd_rmod(&mut rng);
             let mut small = vec![0u8; rng.below(40) as usize];
-            let cmd = if rng.chance(1, 2) { TerminalCommand::FaceModify(prev) } else { TerminalCommand::Face(rnd_face(&mut rng)) };
+            let prev_face = crate_face(&rnd_rface(&mut rng)).unwrap_or(plain_face);
+            let cmd = if rng.chance(1, 2) { TerminalCommand::FaceModify(crate_mod(&prev)) } else { TerminalCommand::Face(prev_face) };
             let r = enc.encode(&mut small.as_mut_slice(), cmd);
-            refused = format!("{} into {} bytes: {}", fmod_tok(&prev), small.len(), if r.is_ok() { "ok" } else { "err" });
+            refused = format!("{} into {} bytes: {}", rmod_tok(&prev), small.len(), if r.is_ok() { "ok" } else { "err" });
             o.hist("roundtrip:modify-after-refused-write");
         }
         if enc.encode(&mut bytes, TerminalCommand::FaceModify(m)).is_err() {
-            o.fail("C06: encode failed", json!({"case": case, "modify": fmod_tok(&m)}), json!("bytes"), json!("error"));
+            o.fail("C06: encode failed", json!({"case": case, "modify": mtok}), json!("bytes"), json!("error"));
             continue;
         }
         let cuts = rnd_cuts(&mut rng, bytes.len());
-        let got = decode_all(&bytes, &cuts);
-        let ok = match got.as_ref() {
-            Ok(cmds) => modify_of(cmds).map(norm) == Some(norm(m)),
-            Err(()) => false,
-        };
-        if !ok {
+        let got = decode_all(&bytes, &cuts, i % 3 == 2);
+        let read_back = got.as_ref().ok().and_then(|cmds| modify_of(cmds));
+        if read_back.map(norm) != Some(norm(rm)) {
             o.fail(
                 "C06: FaceModify does not read back from the encoder's own output",
-                json!({"case": case, "modify": fmod_tok(&m), "bytes": String::from_utf8_lossy(&bytes), "cuts": cuts, "previous_refused_write": refused, "has_inexpressible_param": false}),
-                json!(format!("commands whose composition is {m:?}")),
-                json!(format!("{got:?}")),
+                json!({"case": case, "modify": mtok, "bytes": String::from_utf8_lossy(&bytes), "cuts": cuts, "reader": if i % 3 == 2 { "IOQueue" } else { "cursor" }, "previous_refused_write": refused, "has_inexpressible_param": false}),
+                json!(format!("commands whose composition is {mtok}")),
+                json!(match (&got, &read_back) {
+                    (Err(()), _) => "panic".to_string(),
+                    (_, Some(r)) => format!("composition {}", rmod_tok(r)),
+                    (Ok(cmds), None) => format!("{} commands, not all of them face modifications", cmds.len()),
+                }),
             );
         }
         if i % 800 == 0 {
-            o.sample(json!({"modify": fmod_tok(&m), "bytes": String::from_utf8_lossy(&bytes)}));
+            o.sample(json!({"modify": mtok, "bytes": String::from_utf8_lossy(&bytes)}));
         }
         // correspondence (only when the encoder writes ONE sequence): the model decoder applied to the real
         // encoder's parameter bytes gives what the real decoder gives
@@ -718,31 +921,45 @@ fn main() {
     for i in 0..(4_000 * scale) {
         let case = format!("rtf#{i}");
         let o: &mut Out = if target.as_ref().map_or(true, |t| *t == case) { &mut out } else { &mut sink };
-        let f = rnd_face(&mut rng);
+        let rf = rnd_rface(&mut rng);
+        let other = rnd_rface(&mut rng);
+        let ftok = rface_tok(&rf);
         o.hist("roundtrip:face");
-        o.case(&format!("rtf {}", face_tok(&f)), true);
+        o.case(&format!("rtf {ftok}"), true);
+        let Some(f) = build(o, &case, &rf) else { continue };
         let mut bytes = Vec::new();
         if TTYEncoder::new(true_caps.clone()).encode(&mut bytes, TerminalCommand::Face(f)).is_err() {
-            o.fail("C06: encode failed", json!({"case": case, "face": face_tok(&f)}), json!("bytes"), json!("error"));
+            o.fail("C06: encode failed", json!({"case": case, "face": ftok}), json!("bytes"), json!("error"));
             continue;
         }
         let cuts = rnd_cuts(&mut rng, bytes.len());
-        let got = decode_all(&bytes, &cuts);
+        let got = decode_all(&bytes, &cuts, i % 3 == 2);
         // what a face-modification record can express: everything but REVERSE
-        let want = Face::new(f.fg, f.bg, f.attrs.remove(FaceAttrs::REVERSE));
-        let ok = match got.as_ref() {
-            Ok(cmds) => match modify_of(cmds) {
-                Some(m) => m.apply(rnd_face(&mut rng)) == want && m.apply(Face::default()) == want,
-                None => false,
-            },
-            Err(()) => false,
-        };
+        let want = RFace { reverse: false, ..rf };
+        let read_back = got.as_ref().ok().and_then(|cmds| modify_of(cmds));
+        let mut ok = read_back.map(norm) == Some(norm(face_change(&rf)));
+        // … and the crate's own `apply` of what was read back, on a random face and on the default one
+        if let Ok(cmds) = got.as_ref() {
+            for g in [other, RFace::default()] {
+                if let Ok(gf) = crate_face(&g) {
+                    let end = cmds.iter().fold(gf, |acc, c| match c {
+                        TerminalCommand::FaceModify(m) => m.apply(acc),
+                        _ => acc,
+                    });
+                    ok &= raw_face(&end) == want;
+                }
+            }
+        }
         if !ok {
             o.fail(
                 "C06: Face does not read back from the encoder's own output",
-                json!({"case": case, "face": face_tok(&f), "bytes": String::from_utf8_lossy(&bytes), "cuts": cuts, "has_inexpressible_param": false}),
-                json!(face_tok(&want)),
-                json!(format!("{got:?}")),
+                json!({"case": case, "face": ftok, "bytes": String::from_utf8_lossy(&bytes), "cuts": cuts, "has_inexpressible_param": false}),
+                json!(rface_tok(&want)),
+                json!(match (&got, &read_back) {
+                    (Err(()), _) => "panic".to_string(),
+                    (_, Some(r)) => format!("composition {}", rmod_tok(r)),
+                    (Ok(cmds), None) => format!("{} commands, not all of them face modifications", cmds.len()),
+                }),
             );
         }
     }
@@ -753,9 +970,9 @@ fn main() {
         #[derive(Debug, PartialEq)]
         enum Seg {
             Char(char),
-            Change(FaceModify),
+            Change(RMod),
         }
-        fn push_change(segs: &mut Vec<Seg>, m: FaceModify) {
+        fn push_change(segs: &mut Vec<Seg>, m: RMod) {
             if let Some(Seg::Change(prev)) = segs.last_mut() {
                 *prev = compose(&[*prev, m]);
             } else {
@@ -765,7 +982,7 @@ fn main() {
         fn finish(segs: Vec<Seg>) -> Vec<Seg> {
             segs.into_iter()
                 .filter_map(|s| match s {
-                    Seg::Change(m) if m == FaceModify::default() => None,
+                    Seg::Change(m) if m == RMod::default() => None,
                     Seg::Change(m) => Some(Seg::Change(norm(m))),
                     c => Some(c),
                 })
@@ -776,19 +993,26 @@ fn main() {
         let mut script = Vec::new();
         let mut enc = TTYEncoder::new(true_caps.clone());
         let mut enc_ok = true;
+        let mut built = true;
         for _ in 0..(1 + rng.below(7)) {
             let cmd = match rng.below(5) {
                 0 => {
-                    let m = rnd_modify(&mut rng);
+                    let m = rnd_rmod(&mut rng);
                     push_change(&mut want, m);
-                    script.push(format!("MODIFY {}", fmod_tok(&m)));
-                    TerminalCommand::FaceModify(m)
+                    script.push(format!("MODIFY {}", rmod_tok(&m)));
+                    TerminalCommand::FaceModify(crate_mod(&m))
                 }
                 1 => {
-                    let f = rnd_face(&mut rng);
-                    push_change(&mut want, face_change(&f));
-                    script.push(format!("FACE {}", face_tok(&f)));
-                    TerminalCommand::Face(f)
+                    let rf = rnd_rface(&mut rng);
+                    push_change(&mut want, face_change(&rf));
+                    script.push(format!("FACE {}", rface_tok(&rf)));
+                    match build(o, &case, &rf) {
+                        Some(f) => TerminalCommand::Face(f),
+                        None => {
+                            built = false;
+                            TerminalCommand::Face(plain_face)
+                        }
+                    }
                 }
                 _ => {
                     let c = rnd_char(&mut rng);
@@ -803,16 +1027,18 @@ fn main() {
         o.case(&format!("rts {}", hex(&bytes)), true);
         if !enc_ok {
             o.fail("C06: encode failed", json!({"case": case, "script": script}), json!("bytes"), json!("error"));
-            continue;
         }
         let cuts = rnd_cuts(&mut rng, bytes.len());
-        let got = decode_all(&bytes, &cuts);
+        if !enc_ok || !built {
+            continue;
+        }
+        let got = decode_all(&bytes, &cuts, i % 3 == 2);
         let got_segs: Option<Vec<Seg>> = got.as_ref().ok().and_then(|cmds| {
             let mut segs = Vec::new();
             for c in cmds {
                 match c {
                     TerminalCommand::Char(c) => segs.push(Seg::Char(*c)),
-                    TerminalCommand::FaceModify(m) => push_change(&mut segs, *m),
+                    TerminalCommand::FaceModify(m) => push_change(&mut segs, raw_mod(m)),
                     _ => return None,
                 }
             }
@@ -822,9 +1048,13 @@ fn main() {
         if got_segs.as_ref() != Some(&want) {
             o.fail(
                 "C06: face changes and characters do not read back from the encoder's own output",
-                json!({"case": case, "script": script, "bytes": hex(&bytes), "cuts": cuts, "has_inexpressible_param": false}),
+                json!({"case": case, "script": script, "bytes": hex(&bytes), "cuts": cuts, "reader": if i % 3 == 2 { "IOQueue" } else { "cursor" }, "has_inexpressible_param": false}),
                 json!(format!("{want:?}")),
-                json!(format!("{got:?}")),
+                json!(match (&got, &got_segs) {
+                    (Err(()), _) => "panic".to_string(),
+                    (_, Some(segs)) => format!("{segs:?}"),
+                    (Ok(cmds), None) => format!("{} commands, some neither a character nor a face modification", cmds.len()),
+                }),
             );
         }
         if i % 900 == 0 {
@@ -837,12 +1067,13 @@ fn main() {
         let case = format!("wr#{i}");
         let o: &mut Out = if target.as_ref().map_or(true, |t| *t == case) { &mut out } else { &mut sink };
         let mut bytes: Vec<u8> = Vec::new();
-        let start_face = if i % 4 == 0 { Face::default() } else { rnd_face(&mut rng) };
+        let start = if i % 4 == 0 { RFace::default() } else { rnd_rface(&mut rng) };
+        let stok = rface_tok(&start);
         // expected cells under the full reference and under the reference with 7 / 27 / 39 / 49 ignored
-        let mut want_full: Vec<(char, Face)> = Vec::new();
-        let mut want_ign: Vec<(char, Face)> = Vec::new();
-        let mut cur_full = start_face;
-        let mut cur_ign = start_face;
+        let mut want_full: Vec<(char, RFace)> = Vec::new();
+        let mut want_ign: Vec<(char, RFace)> = Vec::new();
+        let mut cur_full = start;
+        let mut cur_ign = start;
         let mut inexpressible = false;
         let mut script = Vec::new();
         for _ in 0..(1 + rng.below(6)) {
@@ -890,6 +1121,7 @@ fn main() {
                 !(refuse.0 <= k - 1 && k - 1 < refuse.1)
             });
         }
+        let Some(start_face) = build(o, &case, &start) else { continue };
         let got = guarded(|| {
             let mut rec = Recorder { face: start_face, wraps: false, cells: Vec::new(), refuse, calls: 0 };
             {
@@ -905,7 +1137,7 @@ fn main() {
                     start = end;
                 }
             }
-            (rec.cells, rec.face)
+            (rec.cells, raw_face(&rec.face))
         });
         let end_face = got.as_ref().ok().map(|g| g.1);
         let got = got.map(|g| g.0);
@@ -914,20 +1146,20 @@ fn main() {
             if f != cur_ign || (f != cur_full && !inexpressible) {
                 o.fail(
                     "C06: face of the cell writer after the script is not the face SGR semantics gives",
-                    json!({"case": case, "start_face": face_tok(&start_face), "script": script, "cuts": cuts, "refused_cells": [refuse.0, refuse.1], "has_inexpressible_param": false}),
-                    json!(face_tok(&cur_ign)),
-                    json!(face_tok(&f)),
+                    json!({"case": case, "start_face": stok, "script": script, "cuts": cuts, "refused_cells": [refuse.0, refuse.1], "has_inexpressible_param": false}),
+                    json!(rface_tok(&cur_ign)),
+                    json!(rface_tok(&f)),
                 );
             }
         }
         o.hist(if refuse.1 > 0 { "writer-refusing" } else { "writer" });
-        o.case(&format!("w {} {} {:?}", face_tok(&start_face), hex(&bytes), cuts), true);
-        let show = |v: &Vec<(char, Face)>| v.iter().map(|(c, f)| format!("U+{:04X}:{}", *c as u32, face_tok(f))).collect::<Vec<_>>();
+        o.case(&format!("w {stok} {} {:?}", hex(&bytes), cuts), true);
+        let show = |v: &Vec<(char, RFace)>| v.iter().map(|(c, f)| format!("U+{:04X}:{}", *c as u32, rface_tok(f))).collect::<Vec<_>>();
         let got_show = got.as_ref().map(show).unwrap_or(vec!["panic".into()]);
         if got.as_ref() != Ok(&want_ign) {
             o.fail(
                 "C06: cells written through tty_writer do not carry the faces SGR semantics gives",
-                json!({"case": case, "start_face": face_tok(&start_face), "script": script, "cuts": cuts, "has_inexpressible_param": false, "reference": "inexpressible parameters ignored"}),
+                json!({"case": case, "start_face": stok, "script": script, "cuts": cuts, "has_inexpressible_param": false, "reference": "inexpressible parameters ignored"}),
                 json!(show(&want_ign)),
                 json!(got_show),
             );
@@ -940,13 +1172,13 @@ fn main() {
             };
             o.fail(
                 what,
-                json!({"case": case, "start_face": face_tok(&start_face), "script": script, "cuts": cuts, "has_inexpressible_param": inexpressible}),
+                json!({"case": case, "start_face": stok, "script": script, "cuts": cuts, "has_inexpressible_param": inexpressible}),
                 json!(show(&want_full)),
                 json!(got_show),
             );
         }
         if i % 600 == 0 {
-            o.sample(json!({"start_face": face_tok(&start_face), "script": script, "cuts": cuts}));
+            o.sample(json!({"start_face": stok, "script": script, "cuts": cuts}));
         }
     }
     out.finish("number strings (1-30 digits, 10% with a non-digit, leading zeros); SGR parameter strings of 1-5 atoms from 46 atom kinds (every supported parameter, ; and : colour forms, palette boundaries, leading zeros, 30 unsupported legal parameters, the four inexpressible ones 7/27/39/49, 30 malformed atoms) joined by `;`, 20% garbage over the SGR alphabet; random faces; random FaceModify / Face values and mixed sequences of face commands and characters (all scalar values but ESC: controls, DEL, C1, boundary code points) round-tripped through the real encoder (true colour) and command decoder under random read cuts; scripts of SGR sequences and UTF-8 text written through tty_writer() from a random start face under random write cuts; distinct by content");
